@@ -20,19 +20,20 @@ EXTENDS Naturals, Integers, TLC
 
 CONSTANTS PLens,       \* payload (ciphertext) lengths explored
           Bufs,        \* caller buffer sizes
-          BUG          \* "none" | "cipher_buf" | "no_mac" | "no_crc" | "zero_read_skips_crc" | "eof_not_sticky"
+          BUG          \* "none" | "cipher_buf" | "no_mac" | "no_crc" | "zero_read_skips_crc" | "eof_not_sticky" | "no_drain_at_end"
 
 VARIABLES plen,        \* payload (ciphertext) length of this entry
           kind,        \* "plain" | "zc" | "ae1" | "ae2"
           dmg,         \* "none" | "data" | "crc" | "mac"
+          comp,        \* a decompressor sits between the cipher and the checksum (it may end before the ciphertext does)
           remaining, cipherPos, macFed, macChecked, delivered, hashed, crcArmed, eof, failed, lastn, lastk
-vars == <<plen, kind, dmg, remaining, cipherPos, macFed, macChecked, delivered, hashed, crcArmed, eof, failed, lastn, lastk>>
+vars == <<plen, kind, dmg, comp, remaining, cipherPos, macFed, macChecked, delivered, hashed, crcArmed, eof, failed, lastn, lastk>>
 
 Kinds == {"plain", "zc", "ae1", "ae2"}
 Aes == kind \in {"ae1", "ae2"}
 Dmgs(k) == IF k \in {"ae1", "ae2"} THEN {"none", "data", "crc", "mac"} ELSE {"none", "data", "crc"}
 
-Init == /\ plen \in PLens /\ kind \in Kinds /\ dmg \in Dmgs(kind)
+Init == /\ plen \in PLens /\ kind \in Kinds /\ dmg \in Dmgs(kind) /\ comp \in BOOLEAN
         /\ remaining = plen /\ cipherPos = 0 /\ macFed = 0 /\ macChecked = FALSE
         /\ delivered = 0 /\ hashed = 0 /\ crcArmed = TRUE /\ eof = FALSE /\ failed = FALSE /\ lastn = 0 /\ lastk = 0
 
@@ -49,14 +50,14 @@ Read(n, k) ==
    /\ IF n = 0
       THEN /\ lastk' = 0
            /\ crcArmed' = (IF BUG = "zero_read_skips_crc" THEN FALSE ELSE crcArmed)
-           /\ UNCHANGED <<plen, kind, dmg, remaining, cipherPos, macFed, macChecked, delivered, hashed, eof, failed>>
+           /\ UNCHANGED <<plen, kind, dmg, comp, remaining, cipherPos, macFed, macChecked, delivered, hashed, eof, failed>>
       ELSE IF remaining = 0
       THEN \* the layers below are exhausted: this is where the checksum is compared
            /\ k = 0 /\ lastk' = 0
            /\ IF CrcBad /\ kind # "ae2" /\ BUG # "no_crc" /\ crcArmed /\ ~(eof /\ BUG = "eof_not_sticky")
               THEN failed' = TRUE /\ eof' = eof
               ELSE eof' = TRUE /\ failed' = failed
-           /\ UNCHANGED <<plen, kind, dmg, remaining, cipherPos, macFed, macChecked, delivered, hashed, crcArmed>>
+           /\ UNCHANGED <<plen, kind, dmg, comp, remaining, cipherPos, macFed, macChecked, delivered, hashed, crcArmed>>
       ELSE LET got == Min(Min(IF k = 0 THEN 1 ELSE k, n), remaining) IN
            /\ remaining' = remaining - got
            /\ cipherPos' = IF kind = "plain" THEN cipherPos ELSE cipherPos + (IF BUG = "cipher_buf" THEN n ELSE got)
@@ -68,15 +69,30 @@ Read(n, k) ==
                       ELSE failed' = failed /\ delivered' = delivered + got /\ hashed' = hashed + got /\ lastk' = got
               ELSE /\ macChecked' = macChecked /\ failed' = failed
                    /\ delivered' = delivered + got /\ hashed' = hashed + got /\ lastk' = got
-           /\ UNCHANGED <<plen, kind, dmg, eof, crcArmed>>
-Next == \E n \in Bufs, k \in 0..3 : Read(n, k)
+           /\ UNCHANGED <<plen, kind, dmg, comp, eof, crcArmed>>
+\* A decompressor fed damaged data may report the end of its stream while ciphertext remains (a read with a
+\* non-empty buffer returns 0 early).  Required: the rest of an AES entry's ciphertext is then read so that the
+\* authentication code is compared; after that the checksum is compared as at a regular end of data.
+DecoderEndsEarly(n) ==
+   /\ comp /\ dmg = "data" /\ ~failed /\ ~eof /\ remaining > 0 /\ n > 0
+   /\ lastn' = n /\ lastk' = 0
+   /\ LET drain == Aes /\ BUG # "no_drain_at_end" IN
+      /\ remaining' = IF drain THEN 0 ELSE remaining
+      /\ cipherPos' = IF drain THEN plen ELSE cipherPos
+      /\ macFed' = IF drain THEN plen ELSE macFed
+      /\ macChecked' = (macChecked \/ (drain /\ BUG # "no_mac"))
+      /\ IF (drain /\ MacBad /\ BUG # "no_mac") \/ (CrcBad /\ kind # "ae2" /\ BUG # "no_crc" /\ crcArmed)
+         THEN failed' = TRUE /\ eof' = eof
+         ELSE failed' = failed /\ eof' = TRUE
+   /\ UNCHANGED <<plen, kind, dmg, comp, delivered, hashed, crcArmed>>
+Next == \E n \in Bufs : (\E k \in 0..3 : Read(n, k)) \/ DecoderEndsEarly(n)
 Spec == Init /\ [][Next]_vars
 
 \* ---- invariants -----------------------------------------------------------
 \* the cipher has advanced over exactly the ciphertext bytes transferred            [C09, C15]
 CipherSync == kind # "plain" => cipherPos = plen - remaining
 \* the authentication code is compared exactly when the last ciphertext byte arrived [C16]
-MacAtEnd == (Aes /\ plen > 0 /\ eof /\ ~failed) => (macChecked /\ ~MacBad /\ macFed = plen)
+MacAtEnd == (Aes /\ plen > 0 /\ eof /\ ~failed) => (macChecked /\ ~MacBad /\ macFed = plen)      \* also when a decoder ended early (D16)
 \* a read that completed delivered uncorrupted data                                   [C04]
 EofIntegrity == (eof /\ ~failed) => (~CrcBad \/ kind = "ae2")
 \* no damage of a non-empty entry survives to a successful end-of-file                [C04, C16]
@@ -84,5 +100,5 @@ TamperDetected == (eof /\ ~failed /\ plen > 0) => (dmg = "none" \/ (kind = "ae2"
 \* everything delivered went through the checksum; nothing beyond the entry            [C09]
 Accounting == hashed = delivered /\ delivered <= plen /\ delivered + remaining <= plen
 \* a zero-length read returns 0 and an exhausted entry keeps returning 0               [C09]
-ZeroAndSticky == (lastn = 0 => lastk = 0) /\ (eof /\ ~failed => lastk = 0 \/ lastn = 0 \/ remaining = 0)
+ZeroAndSticky == (lastn = 0 => lastk = 0) /\ (eof /\ ~failed => lastk = 0 \/ lastn = 0 \/ remaining = 0 \/ comp)
 =============================================================================
